@@ -450,7 +450,16 @@ pub fn execute(prog: Program) -> Outcome {
                             exists[db] = got.is_some();
                             if let Some(g) = got {
                                 model[db] = live_view(&g).into_iter().filter(|(k, _)| !k.starts_with("$conflicts")).map(|(k, v)| (k, v.0)).collect();
-                                meta[db] = db_meta(&dbs, name);
+                                // whatever part of it was stored: a database that comes back comes back as itself
+                                let m = db_meta(&dbs, name);
+                                if meta[db].is_some() && m != meta[db] {
+                                    out.violations.push(Violation::new(
+                                        "metadata-changed",
+                                        format!("{}:no-completed-snapshot", prog.dbs[db]),
+                                        format!("op #{}: database {} (no snapshot of it completed) had (id,strategy) {:?}, after restart {:?}", i, name, meta[db], m),
+                                    ));
+                                }
+                                meta[db] = m;
                             }
                         }
                     }
